@@ -25,11 +25,31 @@ type Baton struct {
 	// OnlySites, when set, restricts parking to these sites (yield points that lie
 	// inside a critical section protected by a sync.Mutex cannot be parked at).
 	OnlySites []string
-	owner     uint64 // the simulator goroutine: it must never park itself
+	// Auto lists path prefixes (e.g. "internal/event/crdt/") of the scheduling points
+	// that tools/autoyield inserts around mutex operations in the scratch copy of the
+	// tree ("auto:<path>:<func>:<n>:<kind>"); auto points elsewhere never park.
+	Auto []string
+	// ParkHolding allows a task to park while it holds an instrumented mutex. Safe
+	// when every goroutine that may want that mutex is itself scheduled by the baton
+	// (it is then kept parked at its Acquire point until the mutex is free).
+	ParkHolding bool
+	owner       uint64 // the simulator goroutine: it must never park itself
+	holders     map[uintptr]*holder
+	depth       map[uint64]int // instrumented mutexes held per goroutine
+}
+
+type holder struct {
+	writer  uint64
+	readers int
 }
 
 // NewBaton creates a baton owned by the calling (simulator) goroutine.
-func NewBaton() *Baton { return &Baton{owner: goid()} }
+func NewBaton() *Baton {
+	return &Baton{owner: goid(), holders: map[uintptr]*holder{}, depth: map[uint64]int{}}
+}
+
+// Goid is the id of the calling goroutine.
+func Goid() uint64 { return goid() }
 
 func (b *Baton) underLock() bool {
 	if len(b.NoParkUnder) == 0 {
@@ -53,9 +73,11 @@ func (b *Baton) underLock() bool {
 
 // Parked is one goroutine waiting at a yield point.
 type Parked struct {
-	Site string
-	Goid uint64
-	ch   chan struct{}
+	Site  string
+	Goid  uint64
+	Wants uintptr // the mutex the task is about to take (0: none / unknown)
+	Excl  bool
+	ch    chan struct{}
 }
 
 func goid() uint64 {
@@ -69,34 +91,99 @@ func goid() uint64 {
 	return 0
 }
 
-// Hook is what gets installed as verifyield.Hook.
-func (b *Baton) Hook(site string) {
+// Hook is what gets installed as verifyield.Hook (and verifauto.Hook).
+func (b *Baton) Hook(site string) { b.park(site, 0, false) }
+
+// AcquireHook is installed as verifauto.AcquireHook: a scheduling point that names
+// the mutex the goroutine takes next.
+func (b *Baton) AcquireHook(site string, mutex uintptr, exclusive bool) { b.park(site, mutex, exclusive) }
+
+// LockHook is installed as verifauto.LockHook.
+func (b *Baton) LockHook(mutex uintptr, delta int, exclusive bool) {
+	me := goid()
 	b.mu.Lock()
-	if !b.active || b.underLock() {
-		b.mu.Unlock()
+	defer b.mu.Unlock()
+	b.depth[me] += delta
+	if b.depth[me] <= 0 {
+		delete(b.depth, me)
+	}
+	if mutex == 0 {
 		return
 	}
-	if len(b.OnlySites) > 0 {
-		ok := false
-		for _, s := range b.OnlySites {
-			if s == site {
-				ok = true
+	h := b.holders[mutex]
+	if h == nil {
+		h = &holder{}
+		b.holders[mutex] = h
+	}
+	switch {
+	case delta > 0 && exclusive:
+		h.writer = me
+	case delta > 0:
+		h.readers++
+	case h.writer == me:
+		h.writer = 0
+	case h.readers > 0:
+		h.readers--
+	}
+	if h.writer == 0 && h.readers == 0 {
+		delete(b.holders, mutex)
+	}
+}
+
+func (b *Baton) allowed(site string) bool {
+	if strings.HasPrefix(site, "auto:") {
+		for _, p := range b.Auto {
+			if strings.HasPrefix(site[5:], p) {
+				return true
 			}
 		}
-		if !ok {
-			b.mu.Unlock()
-			return
+		return false
+	}
+	if len(b.OnlySites) == 0 {
+		return true
+	}
+	for _, s := range b.OnlySites {
+		if s == site {
+			return true
 		}
+	}
+	return false
+}
+
+func (b *Baton) park(site string, wants uintptr, excl bool) {
+	b.mu.Lock()
+	if !b.active || !b.allowed(site) || b.underLock() {
+		b.mu.Unlock()
+		return
 	}
 	me := goid()
 	if me == b.owner {
 		b.mu.Unlock()
 		return // a yield point reached on the simulator goroutine itself (e.g. a Gossiper callback it delivers)
 	}
-	p := &Parked{Site: site, Goid: me, ch: make(chan struct{})}
+	if b.depth[me] > 0 && !b.ParkHolding {
+		b.mu.Unlock()
+		return // holds a mutex: somebody blocked on it would not be durably blocked
+	}
+	p := &Parked{Site: site, Goid: me, Wants: wants, Excl: excl, ch: make(chan struct{})}
 	b.parked = append(b.parked, p)
 	b.mu.Unlock()
 	<-p.ch // durably blocked: the simulator decides when this task continues
+}
+
+// free reports whether a task waiting for this mutex could take it now.
+func (b *Baton) free(p *Parked) bool {
+	if p.Wants == 0 {
+		return true
+	}
+	h := b.holders[p.Wants]
+	if h == nil {
+		return true
+	}
+	if p.Excl {
+		return false
+	}
+	return h.writer == 0
 }
 
 // SetActive switches parking on or off (off: every Point returns at once).
@@ -106,13 +193,26 @@ func (b *Baton) SetActive(on bool) {
 	b.mu.Unlock()
 }
 
-// Parked lists the parked tasks in canonical (goroutine creation) order.
+// Parked lists the parked tasks that can run (those about to take a mutex somebody
+// holds are left out) in canonical (goroutine creation) order.
 func (b *Baton) Parked() []*Parked {
 	b.mu.Lock()
 	defer b.mu.Unlock()
-	out := append([]*Parked(nil), b.parked...)
+	var out []*Parked
+	for _, p := range b.parked {
+		if b.free(p) {
+			out = append(out, p)
+		}
+	}
 	sort.Slice(out, func(i, j int) bool { return out[i].Goid < out[j].Goid })
 	return out
+}
+
+// Waiting is the number of parked tasks, runnable or not.
+func (b *Baton) Waiting() int {
+	b.mu.Lock()
+	defer b.mu.Unlock()
+	return len(b.parked)
 }
 
 // Release lets one parked task run to its next yield point or blocking call.
